@@ -24,6 +24,7 @@ import json
 import os
 import random
 import re
+import shutil
 import subprocess
 import sys
 import time
@@ -179,6 +180,15 @@ def lake_build(targets):
         fcntl.flock(lk, fcntl.LOCK_EX)
         rc, out = _sh(["lake", "build"] + targets, cwd=LEAN)
     return rc == 0, out
+
+
+def leanchecker(module):
+    """thorough tier: the toolchain's independent re-checker replays the compiled declarations of the property module
+    (and whatever it imports) through the kernel.  -> (ok, output)"""
+    if shutil.which("leanchecker") is None:
+        return None, "leanchecker not on PATH"
+    rc, out = _sh(["lake", "env", "leanchecker", module], cwd=LEAN)
+    return rc == 0, out[-2000:]
 
 
 def import_closure(module):
